@@ -297,7 +297,7 @@ def run_for_property(prop, repo, out_dir, log):
                     notes.append('helper fn %s (%s) extracted verbatim, without a contract' % (name, f))
                     added = True
                 break
-        for m in re.finditer(r"error\[E0599\]: no (?:method|function or associated item) named `(\w+)` found for[^\n]*?`(\w+)`[^\n]*\n\s+--> [^:]+:(\d+):", p.stderr):
+        for m in re.finditer(r"error\[E0599\]: no (?:method|function or associated item) named `(\w+)` found for[^\n]*?`&?(?:mut )?(\w+)`[^\n]*\n\s+--> [^:]+:(\d+):", p.stderr):
             name, ty, ln = m.group(1), m.group(2), int(m.group(3))
             owner = [sp for (a, b, sp) in index if a <= ln <= b]
             if not owner:
